@@ -20,7 +20,11 @@ func genC16(g *gen) {
 		name string
 		f    func(*gen)
 		keep int // keep 1 of `keep` matching programs in the quick tier
-	}{{"C01", genC01, 2}, {"C02", genC02, 6}, {"C03", genC03, 2}, {"C04", genC04, 1}, {"C05", genC05, 3}, {"C13", genC13, 2}} {
+	}{{"C01", genC01, 2}, {"C02", genC02, 6}, {"C03", genC03, 2}, {"C04", genC04, 1}, {"C05", genC05, 3}, {"C13", genC13, 2},
+		{"C08", generators["C08"], 1}, {"C09", generators["C09"], 1}, {"C10", generators["C10"], 1}, {"C14", generators["C14"], 3}, {"C15", generators["C15"], 2}} {
+		if sub.f == nil {
+			continue
+		}
 		var buf bytes.Buffer
 		w := bufio.NewWriter(&buf)
 		sg := &gen{w: w, r: &rng{s: g.r.next()}, tier: g.tier, pfx: "x_"}
@@ -169,11 +173,20 @@ func init() {
 				fmt.Fprintf(g.w, "%s%d%s\n", g.pfx, g.n, line[j:])
 			}
 		}
-		if f, ok := generators["C08"]; ok {
-			for i, line := range captureGen(g, f) {
-				if !g.thorough() && i%2 != 0 {
+		// masking predicates are generated per element type as well: every program of the C15 generator that runs one
+		if f, ok := generators["C15"]; ok {
+			for _, line := range captureGen(g, f) {
+				j := strings.Index(line, " ; ")
+				if j < 0 || !strings.Contains(line, "mpred ") {
 					continue
 				}
+				g.n++
+				fmt.Fprintf(g.w, "%s%d%s\n", g.pfx, g.n, line[j:])
+			}
+		}
+		if f, ok := generators["C08"]; ok {
+			for i, line := range captureGen(g, f) {
+				_ = i
 				j := strings.Index(line, " ; ")
 				if j < 0 {
 					continue
